@@ -1523,7 +1523,8 @@ class EBPF(EBPFBase):
     def save_registers(self, registers):
         oldowners = self.owners.copy()
         registers = set(registers)
-        self.owners |= registers
+        # the temporaries must survive function calls: keep them out of r0-r5
+        self.owners |= registers | set(range(6))
         save = []
         with ExitStack() as exitStack:
             for i in registers:
@@ -1532,10 +1533,11 @@ class EBPF(EBPFBase):
                     self.append(Opcode.MOV+Opcode.LONG+Opcode.REG,
                                 tmp, i, 0, 0)
                     save.append((tmp, i))
+            self.owners -= set(range(6)) - registers - oldowners
             yield
             for tmp, i in save:
                 self.append(Opcode.MOV+Opcode.LONG+Opcode.REG, i, tmp, 0, 0)
-            self.owners = oldowners
+            self.owners = oldowners | (self.owners - registers)
 
     @contextmanager
     def get_stack(self, size):
